@@ -1,6 +1,6 @@
 (* Wire format shared with the Go harness: a case is a list of naturals (a prefix-coded tree); so is the answer.
    The decoder is Gallina, so the extracted driver and the in-kernel vm_compute route run the same function. *)
-From LD Require Import Base F32 Data Scan Semver Time Model Ops Bucket Eval Codec Buffer Nesting Options.
+From LD Require Import Base F32 Data Scan Semver Time Model Ops Bucket Eval Codec Buffer Nesting Options Builders.
 Open Scope Z_scope.
 
 Inductive T := A (n : N) | S (b : str) | L (l : list T).
@@ -244,6 +244,86 @@ Definition e_ref (r : ref) : T :=
   L [Ab (ref_defined r); Ab (ref_has_err r); S (ref_string r); A (N.of_nat (ref_depth r));
      L (map (fun i => S (ref_component r i)) (seq 0 (ref_depth r)))].
 
+(* builder calls (kind 13) *)
+Definition d_bucket (t : T) : option wvar :=
+  match t with L [A v; A w; A u] => Some (mkwvar (unzz v) (unzz w) (negb (N.eqb u 0))) | _ => None end.
+Definition d_bvorr (t : T) : option vorr :=
+  match t with
+  | L [A 0%N; A i] => Some (b_variation (unzz i))
+  | L [A 1%N; L bs] => option_map b_rollout (d_all d_bucket bs)
+  | L [A 2%N; seed; L bs] =>
+    match d_opt d_Z seed, d_all d_bucket bs with Some sd, Some l => Some (b_experiment sd l) | _, _ => None end
+  | _ => None
+  end.
+Definition d_bclause (t : T) : option clause :=
+  match t with
+  | L [A 0%N; S kind; S attr; S op; L vals; A neg] =>
+    option_map (fun vs => let c := b_clause kind attr op vs in if N.eqb neg 0 then c else b_negate c) (d_all d_jv vals)
+  | L [A 1%N; L keys; A neg] =>
+    option_map (fun ks => let c := b_segment_match ks in if N.eqb neg 0 then c else b_negate c) (d_all d_str keys)
+  | _ => None
+  end.
+Definition d_rbop (t : T) : option rbop :=
+  match t with
+  | L [A 1%N; L cls] => option_map RClauses (d_all d_bclause cls)
+  | L [A 2%N; S x] => Some (RId x)
+  | L [A 3%N; A b] => Some (RTrack (negb (N.eqb b 0)))
+  | L [A 4%N; vr] => option_map RVorr (d_bvorr vr)
+  | _ => None
+  end.
+Definition d_fbop (t : T) : option fbop :=
+  let b n := negb (N.eqb n 0) in
+  match t with
+  | L [A 1%N; S k; A v] => Some (FAddPrereq k (unzz v))
+  | L [A 2%N; L rops] => option_map FAddRule (d_all d_rbop rops)
+  | L [A 3%N; A v; L keys] => option_map (FAddTarget (unzz v)) (d_all d_str keys)
+  | L [A 4%N; S kind; A v; L keys] => option_map (FAddCtxTarget kind (unzz v)) (d_all d_str keys)
+  | L [A 5%N; A x] => Some (FCSEnv (b x))
+  | L [A 6%N; A x] => Some (FCSMobile (b x))
+  | L [A 7%N; A z] => Some (FDebug (unzz z))
+  | L [A 8%N; A x] => Some (FDeleted (b x))
+  | L [A 9%N; A x] => Some (FExclude (b x))
+  | L [A 10%N; vr] => option_map FFallthrough (d_bvorr vr)
+  | L [A 11%N; A v] => Some (FOffVar (unzz v))
+  | L [A 12%N; A x] => Some (FOn (b x))
+  | L [A 13%N; S x] => Some (FSalt x)
+  | L [A 14%N; A z] => Some (FSampling (unzz z))
+  | L [A 15%N; v] => option_map FSingleVar (d_jv v)
+  | L [A 16%N; A x] => Some (FTrack (b x))
+  | L [A 17%N; A x] => Some (FTrackFt (b x))
+  | L [A 18%N; L vs] => option_map FVars (d_all d_jv vs)
+  | L [A 19%N; A z] => Some (FVersion (unzz z))
+  | L [A 20%N; cr] => option_map FMigration (d_opt d_Z cr)
+  | L [A 21%N] => Some FBuild
+  | _ => None
+  end.
+
+Definition d_srbop (t : T) : option srbop :=
+  match t with
+  | L [A 1%N; S a] => Some (SRBucketBy a)
+  | L [A 2%N; S a] => Some (SRBucketByRef a)
+  | L [A 3%N; L cls] => option_map SRClauses (d_all d_bclause cls)
+  | L [A 4%N; S x] => Some (SRId x)
+  | L [A 5%N; S k] => Some (SRKind k)
+  | L [A 6%N; A z] => Some (SRWeight (unzz z))
+  | _ => None
+  end.
+Definition d_sbop (t : T) : option sbop :=
+  match t with
+  | L [A 1%N; L rops] => option_map SAddRule (d_all d_srbop rops)
+  | L [A 2%N; L keys] => option_map SExcluded (d_all d_str keys)
+  | L [A 3%N; L keys] => option_map SIncluded (d_all d_str keys)
+  | L [A 4%N; S kind; L keys] => option_map (SIncCtx kind) (d_all d_str keys)
+  | L [A 5%N; S kind; L keys] => option_map (SExcCtx kind) (d_all d_str keys)
+  | L [A 6%N; A z] => Some (SVersion (unzz z))
+  | L [A 7%N; S x] => Some (SSalt x)
+  | L [A 8%N; A b] => Some (SUnbounded (negb (N.eqb b 0)))
+  | L [A 9%N; S k] => Some (SUnbKind k)
+  | L [A 10%N; A z] => Some (SGeneration (unzz z))
+  | L [A 11%N] => Some SBuild
+  | _ => None
+  end.
+
 Definition bad : T := L [A 99%N].           (* malformed case *)
 Definition undecodable : T := L [A 98%N].   (* the document was rejected by the decoder *)
 
@@ -322,6 +402,18 @@ Definition run_case1 (t : T) : T :=
   | L [A 11%N; L pieces] =>
     match d_all (fun p => match p with L [A n; S x] => Some (n, x) | _ => None end) pieces with
     | Some ps => Ab (nesting_ok (expand ps))
+    | None => bad
+    end
+  (* 13: ldbuilders: a flag built by a sequence of builder calls, encoded *)
+  | L [A 13%N; S key; L ops] =>
+    match d_all d_fbop ops with
+    | Some os => e_jv (encode_flag (fb_build key os))
+    | None => bad
+    end
+  (* 14: ldbuilders: a segment built by a sequence of builder calls, encoded *)
+  | L [A 14%N; S key; L ops] =>
+    match d_all d_sbop ops with
+    | Some os => e_jv (encode_segment (sb_build key os))
     | None => bad
     end
   (* 12: option list of NewEvaluatorWithOptions *)
